@@ -18,6 +18,7 @@ PRIM = (type(None), bool, int, float, str)
 def _tab(d):
     import pandas as pd
     X = pd.DataFrame({"a": [float(v) for v in d["a"]], "b": [float(v) for v in d["b"]]})
+    X = X[list(d.get("cols", ["a", "b"]))]           # the same columns, possibly in another ORDER
     y = pd.Series([int(v) for v in d["y"]])
     sf = pd.Series([str(v) for v in d["sf"]])
     return X, y, sf
@@ -40,6 +41,13 @@ def pub(v, keys=None):
         fitted = sorted(k for k in vars(v) if k.endswith("_") and not k.startswith("__"))
         return ["estimator", type(v).__name__, {k: pub(x) for k, x in sorted(v.get_params(deep=False).items())},
                 fitted]
+    if type(v).__module__.startswith("torch") or hasattr(v, "state_dict"):
+        import hashlib
+        h = hashlib.sha1()
+        for k, t in sorted(v.state_dict().items()):
+            h.update(k.encode())
+            h.update(np.asarray(t.detach().cpu().numpy(), dtype=np.float64).tobytes())
+        return ["module", type(v).__name__, h.hexdigest()]
     # Moment and other plain objects: the primitive attributes they had when constructed
     ks = keys if keys is not None else _ctor_keys(v)
     return ["object", type(v).__name__, {k: pub(getattr(v, k, "<missing>")) for k in ks}]
@@ -78,10 +86,12 @@ class Family:
     def fit(self, est, j):
         raise NotImplementedError
 
-    def predict(self, est):
+    def predict(self, est, last=None):
         raise NotImplementedError
 
-    def fingerprint(self, est):
+    def fingerprint(self, est, last=None):
+        """`last` = data set of the most recent fit of this object (None: never fitted): probes are
+        presented in THAT data set's column order, as a user would"""
         raise NotImplementedError
 
     def ref_ids(self):
@@ -97,7 +107,7 @@ class Family:
         """fingerprint of a new estimator fitted once on D_j (fit's return value is not used)"""
         e = self.make(**over)
         self.fit(e, j)
-        return self.fingerprint(e)
+        return self.fingerprint(e, j)
 
 
 def _flat(*parts):
@@ -109,6 +119,22 @@ def _flat(*parts):
     return out
 
 
+def _sflat(strings):
+    """strings as numbers (length-prefixed code points) so that keys / index labels are compared too"""
+    out = []
+    for t in strings:
+        t = str(t)
+        out.append(float(len(t)))
+        out.extend(float(ord(c)) for c in t)
+    return [float(len(out))] + out
+
+
+def _cols(F, last):
+    """column order of the data set the object was last fitted on (default: D1's)"""
+    X = F.data[last if last in F.data else sorted(F.data)[0]][0]
+    return list(X.columns)
+
+
 class TOFam(Family):
     name = "ThresholdOptimizer"
 
@@ -116,8 +142,10 @@ class TOFam(Family):
         return _tab(d)
 
     def make_query(self):
+        # rows of EVERY data set, hence of every group seen in any fit
         import pandas as pd
-        X = pd.concat([self.data[j][0] for j in sorted(self.data)], ignore_index=True)
+        cols = sorted(self.data[sorted(self.data)[0]][0].columns)
+        X = pd.concat([self.data[j][0][cols] for j in sorted(self.data)], ignore_index=True)
         sf = pd.concat([self.data[j][2] for j in sorted(self.data)], ignore_index=True)
         return X, sf
 
@@ -140,15 +168,27 @@ class TOFam(Family):
         X, y, sf = self.data[j]
         return est.fit(X, y, sensitive_features=sf)
 
-    def predict(self, est):
+    def predict(self, est, last=None):
         X, sf = self.query
-        return est.predict(X, sensitive_features=sf, random_state=3)
+        return est.predict(X[_cols(self, last)], sensitive_features=sf, random_state=3)
 
-    def fingerprint(self, est):
+    def fingerprint(self, est, last=None):
         X, sf = self.query
+        X = X[_cols(self, last)]
         pm = est._pmf_predict(X, sensitive_features=sf)[:, 1]
         pr = est.predict(X, sensitive_features=sf, random_state=5)
-        return _flat(pm, pr)
+        # the learned rule itself: keys and values of the interpolation dictionary
+        d = est.interpolated_thresholder_.interpolation_dict
+        keys = sorted(d, key=str)
+        vals = []
+        for k in keys:
+            b = d[k]
+            for f in ("p_ignore", "prediction_constant", "p0", "p1"):
+                vals.append(float(b[f]) if f in b else -7.0)
+            for f in ("operation0", "operation1"):
+                vals.append(float(b[f].threshold))
+                vals.append(float(ord(b[f].operator[0])))
+        return _flat(pm, pr, vals) + _sflat(keys) + _sflat([est.x_metric_, est.y_metric_])
 
 
 class _RedFam(Family):
@@ -157,7 +197,11 @@ class _RedFam(Family):
 
     def make_query(self):
         import pandas as pd
-        return pd.concat([self.data[j][0] for j in sorted(self.data)], ignore_index=True)
+        cols = sorted(self.data[sorted(self.data)[0]][0].columns)
+        return pd.concat([self.data[j][0][cols] for j in sorted(self.data)], ignore_index=True)
+
+    def q(self, last):
+        return self.query[_cols(self, last)]
 
     def moment(self):
         import fairlearn.reductions as red
@@ -180,24 +224,23 @@ class EGFam(_RedFam):
         kw = dict(estimator=ExactLearner(), constraints=self.moment(), eps=c.get("eps", 0.05),
                   max_iter=c.get("max_iter", 4), nu=(self.NU_GIVEN if c["nu"] == "given" else None), eta0=2.0,
                   run_linprog_step=bool(c["lp"]))
+        if c.get("objective"):
+            # a user-supplied, stateful objective object next to the user-supplied constraints object
+            kw["objective"] = red.ErrorRate(costs={"fp": 0.4, "fn": 0.6})
         kw.update(over)
         return red.ExponentiatedGradient(**kw)
 
-    def predict(self, est):
-        return est.predict(self.query, random_state=3)
+    def predict(self, est, last=None):
+        return est.predict(self.q(last), random_state=3)
 
-    def fingerprint(self, est):
-        pm = est._pmf_predict(self.query)[:, 1]
-        pr = est.predict(self.query, random_state=5)
+    def fingerprint(self, est, last=None):
+        pm = est._pmf_predict(self.q(last))[:, 1]
+        pr = est.predict(self.q(last), random_state=5)
         w = est.weights_.sort_index()
         return _flat(pm, pr, w.values, [est.best_gap_, est.best_iter_, est.last_iter_, est.n_oracle_calls_,
                                         est.n_oracle_calls_dummy_returned_, len(est.predictors_)],
-                     est.lambda_vecs_EG_.values, est.lambda_vecs_.values)
-
-    def ref_ids(self):
-        if self.cfg["nu"] == "given":
-            return [f"g|{j}" for j in (1, 2)]
-        return [f"{k}|{j}" for k in (1, 2) for j in (1, 2)]
+                     est.lambda_vecs_EG_.values, est.lambda_vecs_.values) + \
+            _sflat(map(str, est.lambda_vecs_EG_.index))
 
     def build_refs(self):
         refs, info = {}, {}
@@ -210,7 +253,7 @@ class EGFam(_RedFam):
         for j in (1, 2):
             e = self.make()                     # fresh, nu=None: the property's reference
             self.fit(e, j)
-            refs[f"{j}|{j}"] = self.fingerprint(e)
+            refs[f"{j}|{j}"] = self.fingerprint(e, j)
             nus[str(j)] = float(e.get_params(deep=False)["nu"]) if e.get_params(deep=False)["nu"] is not None else None
         for k in (1, 2):
             for j in (1, 2):
@@ -239,54 +282,71 @@ class GSFam(_RedFam):
         kw.update(over)
         return red.GridSearch(**kw)
 
-    def predict(self, est):
-        return est.predict(self.query)
+    def predict(self, est, last=None):
+        return est.predict(self.q(last))
 
-    def fingerprint(self, est):
-        pr = est.predict(self.query)
+    def fingerprint(self, est, last=None):
+        pr = est.predict(self.q(last))
         return _flat(pr, [est.best_idx_, len(est.predictors_)], est.objectives_, est.gammas_.values,
-                     est.lambda_vecs_.values)
+                     est.lambda_vecs_.values) + _sflat(map(str, est.lambda_vecs_.index)) + \
+            _sflat(map(str, est.gammas_.index))
 
 
 class CRFam(Family):
     name = "CorrelationRemover"
 
     def load(self, d):
-        return _mat(d)
+        X = _mat(d)
+        if self.cfg.get("named"):
+            import pandas as pd
+            return pd.DataFrame(X, columns=list(d["cols"]))
+        return X
 
     def make_query(self):
         q = {}
         for j in sorted(self.data):
             w = self.data[j].shape[1]
-            q.setdefault(w, []).append(self.data[j])
+            if self.cfg.get("named"):
+                q.setdefault(w, []).append(self.data[j][sorted(self.data[j].columns)])
+            else:
+                q.setdefault(w, []).append(self.data[j])
+        if self.cfg.get("named"):
+            import pandas as pd
+            return {w: pd.concat(v, ignore_index=True) for w, v in q.items()}
         return {w: np.vstack(v) for w, v in q.items()}
 
     def make(self, **over):
         from fairlearn.preprocessing import CorrelationRemover
-        kw = dict(sensitive_feature_ids=list(self.cfg.get("ids", [0])), alpha=self.cfg.get("alpha", 0.5))
+        ids = ["s"] if self.cfg.get("named") else list(self.cfg.get("ids", [0]))
+        kw = dict(sensitive_feature_ids=ids, alpha=self.cfg.get("alpha", 0.5))
         kw.update(over)
         return CorrelationRemover(**kw)
 
     def fit(self, est, j):
         return est.fit(self.data[j])
 
-    def _q(self, est):
+    def _q(self, est, last):
         w = getattr(est, "_n_features_in_", None)
         if w is None:
             w = sorted(self.query)[0]
-        return self.query[w]
+        q = self.query[w]
+        if self.cfg.get("named"):
+            # probe frame with the column order of the data set of the last fit
+            q = q[list(self.data[last if last in self.data else sorted(self.data)[0]].columns)]
+        return q
 
-    def predict(self, est):
-        return est.transform(self._q(est))
+    def predict(self, est, last=None):
+        return est.transform(self._q(est, last))
 
-    def fingerprint(self, est):
-        t = est.transform(self._q(est))
-        return _flat(t, est.beta_, est.sensitive_mean_)
+    def fingerprint(self, est, last=None):
+        t = est.transform(self._q(est, last))
+        return _flat(t, est.beta_, est.sensitive_mean_) + _sflat(sorted(map(str, est.lookup_.items())))
 
 
 class AdvFam(Family):
     picklable = False
     regress = False
+    exact = True            # same seed, same arithmetic: bit-identical or different
 
     @property
     def name(self):
@@ -298,11 +358,22 @@ class AdvFam(Family):
     def make_query(self):
         return np.vstack([self.data[j][0] for j in sorted(self.data)])
 
+    def module(self):
+        """user-supplied predictor with mode-dependent layers, built under a fixed torch seed"""
+        import torch
+        torch.manual_seed(int(self.cfg.get("module_seed", 5)))
+        layers = [torch.nn.Linear(3, 4), torch.nn.BatchNorm1d(4), torch.nn.ReLU(), torch.nn.Dropout(0.5),
+                  torch.nn.Linear(4, 1)]
+        if not self.regress:
+            layers.append(torch.nn.Sigmoid())
+        return torch.nn.Sequential(*layers)
+
     def make(self, **over):
         import torch  # noqa: F401
         from fairlearn.adversarial import AdversarialFairnessClassifier, AdversarialFairnessRegressor
         c = self.cfg
-        kw = dict(backend="torch", predictor_model=[3], adversary_model=[2], epochs=c.get("epochs", 2),
+        kw = dict(backend="torch", predictor_model=(self.module() if c.get("module") else [3]),
+                  adversary_model=[2], epochs=c.get("epochs", 2),
                   batch_size=c.get("batch_size", 4), shuffle=True, random_state=c.get("random_state", 11),
                   learning_rate=0.05, alpha=1.0, warm_start=bool(c.get("warm_start", False)),
                   constraints=c.get("constraints", "demographic_parity"))
@@ -313,30 +384,48 @@ class AdvFam(Family):
         X, y, sf = self.data[j]
         return est.fit(X, y, sensitive_features=sf)
 
-    def predict(self, est):
+    def predict(self, est, last=None):
         return est.predict(self.query)
 
-    def fingerprint(self, est):
-        pr = est.predict(self.query)          # raises NotFittedError on an unfitted object
+    def weights(self, est):
         e = est.backendEngine_
         ws = []
         for net in (e.predictor_model, e.adversary_model):
             for _, v in sorted(net.state_dict().items()):
-                ws.extend(float(x) for x in v.detach().cpu().numpy().ravel())
-        return _flat(pr, ws, est._raw_predict(self.query), [est.n_iter_])
+                ws.extend(float(x) for x in np.asarray(v.detach().cpu().numpy(), dtype=float).ravel())
+        return ws
+
+    def fingerprint(self, est, last=None):
+        from sklearn.utils.validation import check_is_fitted
+        check_is_fitted(est)                  # NotFittedError on an unfitted object
+        ws = self.weights(est)                # BEFORE any evaluation (a never-predicted twin has exactly these)
+        pr = est.predict(self.query)
+        raw = est._raw_predict(self.query)
+        return _flat(ws, pr, raw, self.weights(est), [est.n_iter_])
+
+    def predict_checks(self, est):
+        """Predict must not touch either network; consecutive predict / _raw_predict agree (bitwise)"""
+        w0 = self.weights(est)
+        r1, r2 = est._raw_predict(self.query), est._raw_predict(self.query)
+        p1, p2 = est.predict(self.query), est.predict(self.query)
+        return {"state_dict_same": bool(np.array_equal(np.asarray(w0), np.asarray(self.weights(est)))),
+                "raw_same": bool(np.array_equal(np.asarray(r1), np.asarray(r2))),
+                "pred_same": bool(np.array_equal(np.asarray(p1), np.asarray(p2)))}
 
     def build_refs(self):
-        if not self.cfg.get("warm_start"):
+        c = self.cfg
+        if not c.get("warm_start") and not c.get("module"):
             return Family.build_refs(self)
         import itertools
         depth = max(sum(1 for o in h if o[0] == "F") for h in self.case["hists"])
         refs = {}
+        pre = "m:" if c.get("module") else ""
         for n in range(1, depth + 1):
             for seq in itertools.product("12", repeat=n):
                 e = self.make()
                 for j in seq:
                     self.fit(e, int(j))
-                refs[">".join(seq)] = self.fingerprint(e)
+                refs[pre + ">".join(seq)] = self.fingerprint(e, int(seq[-1]))
         return refs, {}
 
 
@@ -348,12 +437,20 @@ FAMILIES = {"to": TOFam, "eg": EGFam, "gs": GSFam, "cr": CRFam, "advc": AdvFam, 
 
 
 # ------------------------------------------------------------------ running a history
-def _match(a, b):
+def _match(a, b, exact=False):
     if a is None or b is None or len(a) != len(b):
         return False
     if not a:
         return True
-    return float(np.max(np.abs(np.asarray(a) - np.asarray(b)))) <= TOL
+    x, y = np.asarray(a, dtype=float), np.asarray(b, dtype=float)
+    if exact:
+        return bool(np.array_equal(x, y, equal_nan=True))
+    fx, fy = np.isfinite(x), np.isfinite(y)
+    if not np.array_equal(fx, fy):
+        return False
+    if not np.array_equal(x[~fx], y[~fy], equal_nan=True):
+        return False
+    return bool(fx.sum() == 0 or float(np.max(np.abs(x[fx] - y[fy]))) <= TOL)
 
 
 def _exc_name(e):
@@ -383,16 +480,17 @@ class Tracker:
         return sorted(k for k, v in self.ids.items() if p.get(k, None) is not v)
 
 
-def _fitted(F, est, refs):
+def _fitted(F, est, refs, last=None):
     """'U' (NotFittedError), list of matching reference ids, or 'X:<exception>'"""
     from sklearn.exceptions import NotFittedError
     try:
-        fp = F.fingerprint(est)
+        fp = F.fingerprint(est, last)
     except NotFittedError:
         return "U", None
     except Exception as e:  # noqa
         return f"X:{_exc_name(e)}", None
-    return [rid for rid, r in refs.items() if _match(fp, r)], fp
+    ex = getattr(F, "exact", False)
+    return [rid for rid, r in refs.items() if _match(fp, r, ex)], fp
 
 
 def _nu_labels(est, info):
@@ -413,24 +511,29 @@ def run_history(F, hist, refs, info):
     est = F.make()
     tr = Tracker(est)
     obs = []
+    last = None            # data set of the last successful fit of the CURRENT object
+    ex = getattr(F, "exact", False)
     for op in hist:
         o = {"op": op}
         try:
             if op[0] == "F":
                 r = F.fit(est, int(op[1:]))
+                last = int(op[1:])
                 o["self"] = r is est
             elif op == "P":
-                before, fpb = _fitted(F, est, refs)
-                a = F.predict(est)
-                b = F.predict(est)
+                before, fpb = _fitted(F, est, refs, last)
+                a = F.predict(est, last)
+                b = F.predict(est, last)
                 o["rep"] = bool(np.array_equal(np.asarray(a), np.asarray(b)))
-                after, fpa = _fitted(F, est, refs)
-                o["pure"] = bool(before == after and (fpb is None or _match(fpb, fpa)))
+                if hasattr(F, "predict_checks"):
+                    o["adv"] = F.predict_checks(est)
+                after, fpa = _fitted(F, est, refs, last)
+                o["pure"] = bool(before == after and (fpb is None or _match(fpb, fpa, ex)))
             elif op == "K":
-                before, fpb = _fitted(F, est, refs)
+                before, fpb = _fitted(F, est, refs, last)
                 new = pickle.loads(pickle.dumps(est))
-                after, fpa = _fitted(F, new, refs)
-                o["pk"] = bool(before == after and (fpb is None or _match(fpb, fpa)))
+                after, fpa = _fitted(F, new, refs, last)
+                o["pk"] = bool(before == after and (fpb is None or _match(fpb, fpa, ex)))
                 o["pk_new"] = new is not est
                 est = new
                 tr.rebase(est)
@@ -442,6 +545,7 @@ def run_history(F, hist, refs, info):
                 o["cl_shared"] = shared
                 o["cl_attrs"] = sorted(k for k in vars(new) if k.endswith("_") and not k.startswith("__"))
                 est = new
+                last = None
                 tr.rebase(est)
             else:
                 raise ValueError(op)
@@ -451,7 +555,7 @@ def run_history(F, hist, refs, info):
             o["msg"] = str(e)[:120]
         o["pdiff"] = tr.pdiff(est)
         o["idiff"] = tr.idiff(est)
-        o["fit"], _ = _fitted(F, est, refs)
+        o["fit"], _ = _fitted(F, est, refs, last)
         if F.name == "ExponentiatedGradient":
             o["nu"] = _nu_labels(est, info)
         obs.append(o)
@@ -467,9 +571,10 @@ def run_case(case):
         return {"est": F.name, "ref_error": _exc_name(e), "ref_msg": str(e)[:200],
                 "ref_tb": traceback.format_exc()[-800:], "refs": [], "distinct": False, "info": {}, "hists": []}
     ids = list(refs)
-    distinct = all(not _match(refs[a], refs[b]) for i, a in enumerate(ids) for b in ids[i + 1:]
+    ex = getattr(F, "exact", False)
+    distinct = all(not _match(refs[a], refs[b], ex) for i, a in enumerate(ids) for b in ids[i + 1:]
                    if a.split("|")[-1] != b.split("|")[-1] or "|" not in a)
     out = {"est": F.name, "refs": ids, "distinct": bool(distinct), "info": info,
-           "ref_equal": [[a, b] for i, a in enumerate(ids) for b in ids[i + 1:] if _match(refs[a], refs[b])],
+           "ref_equal": [[a, b] for i, a in enumerate(ids) for b in ids[i + 1:] if _match(refs[a], refs[b], ex)],
            "hists": [run_history(F, h, refs, info) for h in case["hists"]]}
     return out
